@@ -208,7 +208,7 @@ def _run_property(ctx):
                       found=False, classify=False)
 
 
-MERGE_MODEL_THEOREMS = ['Nbdime.C09_validated_childrenFirst', 'Nbdime.C09_decideMerge_childrenFirst', 'Nbdime.C09_model_keywise_apply', 'Nbdime.C09_model_keywise_choose_local', 'Nbdime.C09_model_keywise_choose_remote', 'Nbdime.C09_model_keywise_all', 'Nbdime.C09_model_cells_choose', 'Nbdime.desc_three', 'Nbdime.filter_sortDesc']
+MERGE_MODEL_THEOREMS = ['Nbdime.C09_validated_childrenFirst', 'Nbdime.C09_decideMerge_childrenFirst', 'Nbdime.C09_model_keywise_apply', 'Nbdime.C09_model_keywise_choose_local', 'Nbdime.C09_model_keywise_choose_remote', 'Nbdime.C09_model_keywise_all', 'Nbdime.C09_model_cells_choose', 'Nbdime.desc_three', 'Nbdime.filter_sortDesc', 'Nbdime.C06_model_mixed', 'Nbdime.C06_model_cells']
 THEOREMS.extend(t for t in MERGE_MODEL_THEOREMS if t not in THEOREMS)
 
 
